@@ -672,7 +672,9 @@ impl<'a> Gen<'a> {
                         write!(pre, "let {} = {}; ", tv, e).unwrap();
                         e = tv;
                     } else if !in_order {
-                        self.feat("struct-lit-out-of-order-inline");
+                        // every initialiser announces itself when it runs
+                        self.feat("struct-lit-out-of-order-effectful");
+                        e = format!("trace(\"f{}\", {})", k, e);
                     }
                     // shorthand `S { f0 }` when a variable of that name and type is in scope
                     // (`S { f0 }` with a single field is read as a block by the parser: needs two fields)
@@ -958,6 +960,9 @@ impl<'a> Gen<'a> {
             if self.cfg.generics {
                 writeln!(src, "fn tag_via_bound[T: Tagged](x: T) -> int32 {{ x.tag(1) + Tagged::other(x) }}").unwrap();
             }
+        }
+        if self.cfg.lit_field_effects {
+            writeln!(src, "fn trace[T](s: string, v: T) -> T {{ let _ = string_println(s); v }}").unwrap();
         }
         if self.cfg.generics {
             writeln!(src, "enum Opt[T] {{ Non, Som(T) }}").unwrap();
